@@ -32,7 +32,7 @@ AllSeqs(A, n) == IF n = 0 THEN {<<>>}
 (* alphabets of the unstructured families *)
 Alpha ==
   CASE LexFamily = "all-num"  -> {"0", "1", "9", "_", "x", "X", "e", "E", ".", "+", "-", "a", "f", "b", "o", " "}
-    [] LexFamily = "all-str"  -> {DQ, SQ, BSL, "n", "x", "u", "0", "7", "a", LF, Sym("E9"), " ", Sym("U1F600")}
+    [] LexFamily = "all-str"  -> {DQ, SQ, BSL, "n", "x", "u", "0", "7", "a", LF, Sym("E9"), " ", Sym("U1F600"), Sym("CR")}
     [] LexFamily = "all-op"   -> {".", "?", ":", "=", "!", "&", "|", "*", "<", "a", "1", " ", LF, Sym("TAB")}
     [] LexFamily = "all-word" -> {"n", "o", "t", "i", " ", Sym("TAB"), LF, "(", "a", "r", "d", "_"}
     [] LexFamily = "all-misc" -> {"@", Sym("XFF"), Sym("U1F600"), Sym("E9"), "a", "1", " ", "(", DQ, "#", ",",
